@@ -107,8 +107,8 @@ def job(chk, item):
             su = b.source_unit(parts)
             base = []
             if value == '<symbolic>':
-                alpha = z3.Union(z3.Range('0', '9'), z3.Re('.'), z3.Re('^'), z3.Re('<'), z3.Re('>'), z3.Re('='), z3.Re('~'))
-                base = [z3.InRe(sv, z3.Plus(alpha)), z3.Length(sv) <= 8]
+                alpha = z3.Union(z3.Range('0', '9'), z3.Re('.'), z3.Re('^'), z3.Re('<'), z3.Re('>'), z3.Re('='), z3.Re('~'), z3.Re(' '), z3.Re('|'))
+                base = [z3.InRe(sv, z3.Plus(alpha)), z3.Length(sv) <= 8, z3.Not(z3.PrefixOf(z3.StringVal(' '), sv)), z3.Not(z3.SuffixOf(z3.StringVal(' '), sv))]
             e.base_constraints_extra = base
             results.append(run_with_base(chk, e, 'floating_pragma', su, 'pragma %s %s @ %s' % (ident, value, place), b, base))
     fam.flush_validation(chk, results)
@@ -163,12 +163,13 @@ def body(chk):
     for k in range(0, len(combos), 80):
         items.append(('selfdestruct', combos[k:k + 80]))
     pragmas = [(i, v, p) for i in ('solidity', 'experimental', 'abicoder')
-               for v in ('^0.8.16', '0.8.16', '>=0.8.0', '~0.8.0', '^0.8.0 ^0.9.0', '>=0.8.0 <0.9.0', '<symbolic>')
+               for v in ('^0.8.16', '0.8.16', '>=0.8.0', '~0.8.0', '^0.8.0 ^0.9.0', '>=0.8.0 <0.9.0', '>=0.8.0 ^0.8.4', '0.7.6 || ^0.8.0',
+                        '>0.8.0 <0.9.0 ^0.8.10', '=0.8.4', '<symbolic>')
                for p in ('first', 'after_contract', 'second', 'twice')]
     items.append(('pragma', pragmas))
     chk.bounds = {'positions (erc20, divide_before_multiply)': '%d of %d' % (len(positions), len(allpos)),
                   'selfdestruct family': '%d function shapes: kind x visibility x modifier x kill call x guard statement x placement' % len(combos),
-                  'pragma family': '%d files; one value fully symbolic (Z3 string over [0-9.^<>=~], length <= 8)' % len(pragmas),
+                  'pragma family': '%d files; one value fully symbolic (Z3 string over [0-9.^<>=~ |], length <= 8, no blank at either end)' % len(pragmas),
                   'outside': 'several guard statements per function; msg.sender checks other than the documented shapes (left free by the oracle)'}
     chk.assumptions = ['as C05; str::contains contract = Z3 str.contains']
     chk.parallel(job, items)
